@@ -15,7 +15,8 @@ use crate::{catch, f32v, Cfg, Hasher, Json, Report, Rng};
 use re::geom::{vertex, Tri, Vertex};
 use re::math::color::{Color3f, Color4f};
 use re::math::mat::{orthographic, perspective, viewport, Mat4x4, RealToReal};
-use re::math::point::{pt2, pt3, Point3};
+use re::math::angle::Angle;
+use re::math::point::{pt2, pt3, Point2, Point3};
 use re::math::vec::{Vec2, Vec3};
 use re::render::batch::Batch;
 use re::render::cam::Camera;
@@ -688,7 +689,7 @@ fn front_door_case(rng: &mut Rng, rep: &mut Report) {
 }
 
 pub fn run(cfg: &Cfg, rep: &mut Report) {
-    rep.rule = "case = one scene: 1..6 (thorough: 1..12) clip-space triangles (w of either sign, any subset of planes crossed, on-plane coordinates, magnitudes over two decades; also view space through perspective/orthographic), an attribute type (7 kinds, each component rendered separately), a target kind (4), a viewport sub-rectangle of a window of a buffer ≤ 64x64 (stream large_targets: ≤ 2048x2048, f32 attribute, 1..3 triangles), prior frame (sentinel colours; depth 0 or random per pixel); every pixel judged; non-trivial = at least one pixel judged inside a visible part; distinct by hash of all scene words".into();
+    rep.rule = "case = one scene: 1..6 (thorough: 1..12) clip-space triangles (w of either sign, any subset of planes crossed, on-plane coordinates, magnitudes over two decades; also view space through perspective/orthographic), an attribute type (11 kinds incl. Angle, Point3, nested tuples, each component rendered separately), a target kind (4), a viewport sub-rectangle of a window of a buffer ≤ 64x64 (stream large_targets: ≤ 2048x2048, f32 attribute, 1..3 triangles), prior frame (sentinel colours; depth 0 or random per pixel); every pixel judged; non-trivial = at least one pixel judged inside a visible part; distinct by hash of all scene words".into();
     rep.assumptions.push("oracle: β = M⁻¹(X,Y,1) in f64 on the exact f32 clip coordinates; real clip output used only for masking fan edges".into());
     rep.assumptions.push("value tolerances get the first-order positional slack of 0.001 px (DESIGN §10-2); buffers ≤ 64 px in the main stream so raster position error stays far inside the 0.02 px mask; in the large_targets stream violations explained by the F9 drift model (screen coordinates > 128 px, positional error ≤ 6e-8·extent² px) carry their own signatures image.edge_drift_large_extent / image.value_drift_large_extent, everything else keeps the strict signatures".into());
     rep.assumptions.push("colour-only targets have no depth buffer: pixels covered by more than one visible triangle are skipped there".into());
@@ -769,7 +770,11 @@ pub fn run(cfg: &Cfg, rep: &mut Report) {
 
     let max_tris = if cfg.quick() { 6 } else { 12 };
     let n = cfg.n(120_000, 8_000_000);
-    rep.run_stream(cfg, 0, "scenes", n, |rng, i, rep| match i % 7 {
+    rep.run_stream(cfg, 0, "scenes", n, |rng, i, rep| match i % 11 {
+        7 => scene_case::<Angle>(rng, rep, i, max_tris),
+        8 => scene_case::<Point3>(rng, rep, i, max_tris),
+        9 => scene_case::<((Vec2, f32), Vec2)>(rng, rep, i, max_tris),
+        10 => scene_case::<(Color3f, Point2)>(rng, rep, i, max_tris),
         0 => scene_case::<f32>(rng, rep, i, max_tris),
         1 => scene_case::<Vec2>(rng, rep, i, max_tris),
         2 => scene_case::<Vec3>(rng, rep, i, max_tris),
